@@ -112,6 +112,10 @@ impl CleanMarkerStore {
         #[cfg(walrus_verif)]
         crate::wal::verif::io_check(crate::wal::verif::IoKind::Rename, &tmp_path, path, 0, 0)?;
         fs::rename(&tmp_path, path)?;
+        // make the rename durable (see WalIndex::persist)
+        if let Some(dir) = std::path::Path::new(path).parent() {
+            fs::File::open(dir)?.sync_all()?;
+        }
         Ok(())
     }
 }
